@@ -79,9 +79,10 @@ TK = {"endpointslice": "TEndpointSlice", "configmap": "TConfigMap"}
 
 
 def cq_task(t):
-    return "(mktask %s %d %s %s %s %s)" % (TK.get(t["kind"], "TOther"), t["qlen"],
-                                           C.cq_list(["(%s)" % cq_op(o) for o in t.get("work") or []]),
-                                           C.cq_bool(t.get("found", False)), C.cq_z(t.get("mv", 0)), cq_rs(t.get("all")))
+    return "(mktask %s %d %s %s %s %s %s %s)" % (TK.get(t["kind"], "TOther"), t["qlen"],
+                                                 C.cq_list(["(%s)" % cq_op(o) for o in t.get("work") or []]),
+                                                 C.cq_bool(t.get("found", False)), C.cq_bool(t.get("reports", True)),
+                                                 C.cq_bool(t.get("allrep", True)), C.cq_z(t.get("mvnow", 0)), cq_rs(t.get("all")))
 
 
 def case_to_coq(c):
@@ -99,7 +100,7 @@ def case_to_coq(c):
 
 PRELUDE = """From NIC Require Import Base.SMap Reload.Model Reload.Cases.
 Definition mkres k n v a w := {| r_kind := k; r_name := n; r_ver := v; r_apis := a; r_weights := w |}.
-Definition mktask k q w f mv al := {| t_kind := k; t_qlen := q; t_work := w; t_found := f; t_mainver := mv; t_all := al |}.
+Definition mktask k q w f rp ar mv al := {| t_kind := k; t_qlen := q; t_work := w; t_found := f; t_reports := rp; t_all_reports := ar; t_mainver := mv; t_all := al |}.
 """
 
 
@@ -149,6 +150,7 @@ VERDICT = {
     3: ("reload-without-change", "the batch ended with nothing changed and nothing pending, yet NGINX was reloaded"),
     4: ("reload-without-change", "the batch ended with nothing changed and nothing pending, yet everything was regenerated and NGINX reloaded"),
     5: ("reload-failure-not-reported", "a failed Reload was not reported on any resource (no Warning event)"),
+    6: ("reload-failure-not-reported", "a Reload that failed while endpoints were updated was only logged (no Warning event on the resources using the service)"),
 }
 
 
@@ -214,7 +216,14 @@ def judge(run, cases, res):
                 kind, what = VERDICT.get(v, ("spec", "specification fails"))
                 t = c["tasks"][i]
                 ended = (i > 0 and c["obs"][i - 1]["batch"]) and not c["obs"][i]["batch"]
-                site = "batch-end" if ended and v in (2, 3, 5) else ("batch-end-updateall" if ended and v == 4 else "task-" + t["kind"] + ":" + work_sites(t))
+                if ended and v in (2, 3, 5):
+                    site = "batch-end"
+                elif ended and v == 4:
+                    site = "batch-end-updateall"
+                elif v == 6:
+                    site = "task-endpointslice"
+                else:
+                    site = "task-" + t["kind"] + ":" + work_sites(t)
                 d = dict(c)
                 d["tasks"], d["obs"] = c["tasks"][:i + 1], c["obs"][:i + 1]
                 run.failing({"kind": kind, "site": site}, [d], "case %d sync %d (%s task, queue length %d): %s: %s"
@@ -244,7 +253,7 @@ TRUSTED = [
 
 
 def check(run):
-    n = 330 if run.tier == "quick" else 6000
+    n = 1500 if run.tier == "quick" else 15000
     run.proof_obligations()
     binary = C.go_build("c12")
     out = os.path.join(C.WORK, "cases", "c12_%s.jsonl" % run.tier)
@@ -252,10 +261,14 @@ def check(run):
     if rc != 0:
         raise C.TieBroken("c12 harness failed rc=%d: %s" % (rc, log[-1500:]))
     cases = C.read_jsonl(out)
-    shard = 150
-    for k in range(0, len(cases), shard):
-        part = cases[k:k + shard]
-        judge(run, part, evaluate(run, part, "%s_%d" % (run.tier, k // shard)))
+    shard = 60
+    parts = [cases[k:k + shard] for k in range(0, len(cases), shard)]
+    from concurrent.futures import ThreadPoolExecutor
+    with ThreadPoolExecutor(max_workers=8) as ex:      # one coqc process per shard
+        futs = [ex.submit(evaluate, run, part, "%s_%d" % (run.tier, i)) for i, part in enumerate(parts)]
+        results = [f.result() for f in futs]
+    for part, res in zip(parts, results):
+        judge(run, part, res)
     for c in [x for x in cases if x["fam"] == "cfg"][:1] + [x for x in cases if x["fam"] == "ctl"][:1]:
         run.sample(c)
     run.cov["rule"] = ("cfg: histories of 4-30 public Configurator operations (AddOrUpdate{Ingress,MergeableIngress,VirtualServer,VirtualServers,TransportServer,Resources}, "
